@@ -312,6 +312,11 @@ TraceEnd ==
                 \cup V(ln.exc # "none" \/ ~ ln.has_stats \/ obsStats = stats, "stats.entries")
                 \cup V(ln.exc # "none" \/ ~ ln.has_stats \/ \A T \in PT : OnePerAccepted(obsStats, T, acc), "stats.one_per_step")
                 \cup V(ln.exc # "none" \/ ~ ln.has_stats \/ NiterRecorded(obsStats, acc), "stats.niter")
+                \cup V(ln.exc # "none" \/ ~ ln.has_stats \/ IterRecordsMatch(obsStats, acc), "stats.iteration_records")
+                \cup V(ln.exc # "none" \/ ~ ln.has_stats \/
+                        {<<e[1], e[2], e[7]>> : e \in {x \in FilterRecomputedAll(obsStats) : x[1] \in PT}}
+                            = {<<ln.filtered_all[j][1], ln.filtered_all[j][2], ln.filtered_all[j][3]>> : j \in 1 .. Len(ln.filtered_all)},
+                        "stats.filter_without_type")
                 \cup V(ln.exc # "none" \/ ~ ln.has_stats \/
                         \A i \in 1 .. Len(ln.filtered) :
                             {<<e[2], e[7]>> : e \in FilterRecomputed(obsStats, ln.filtered[i][1])}
